@@ -2,6 +2,8 @@
 ENGINES = [
     {"name": "cursor", "path": "harness/bufmc/src/cursor.rs", "serves_properties": ["C09", "C12"],
      "kind_free_text": "explicit-state exploration (trees x op sequences, replayed from scratch) of the crate's Buf implementations against a flat and a structural model, under the oracle allocator"},
+    {"name": "sink", "path": "harness/bufmc/src/sink.rs", "serves_properties": ["C11", "C12"],
+     "kind_free_text": "explicit-state exploration (target trees x write sequences) of the crate's BufMut implementations against an append model with guard bytes"},
     {"name": "typed", "path": "harness/bufmc/src/typed.rs", "serves_properties": ["C10"],
      "kind_free_text": "exhaustive table of getter x shape x position x pattern x shortfall"},
     {"name": "table", "path": "harness/bufmc/src/table.rs", "serves_properties": ["C14", "C15"],
@@ -18,10 +20,14 @@ CLAIMS = {
         technique="exhaustive table: every getter x every chunk-boundary position / shape / wrapper x pre-consumed bytes x shortfalls x sign/order-pinning byte patterns, on the real code vs an independent decoder",
         text="All 76+ get/try_get methods are executed on every buffer shape of the table (1, 2, 3+ chunks with boundaries at every position, every leaf type, forwarding wrappers), for every shortfall and a byte-pattern set that pins byte order and sign; results, errors, panics and the cursor position are compared with an independent decoder. Complete for 1-byte and 16-bit values.",
         note="Wider types use 25 msb/lsb edge patterns with position-coded middle bytes rather than all values; decoding code is value-independent apart from sign and order."),
+    "C11": dict(engine="sink", design_ref="DESIGN.md §3 C11",
+        technique="explicit-state exploration of the real crate: all BufMut target trees x sizes x fill levels x write sequences (complete put table + sized writes) against an append model with guarded arenas",
+        text="Every BufMut the crate provides, nested and sized so that writes fit exactly, straddle a chunk end at every offset, trigger growth or do not fit, receives every put method with sign/order-pinning values and every sequence of sized writes up to depth 3; contents, remaining_mut, chunk_mut, does-not-fit panics, guard bytes and read-back are checked after every write. Exhaustive within the stated bounds.",
+        note="Bounds: targets <= 20 bytes fixed, chains of <= 3 parts, depth 3. Trusts the harness encoder and the arena/canary guards."),
     "C12": dict(engine="cursor+sink", design_ref="DESIGN.md §3 C12",
         technique="explicit-state exploration of adapter trees with Reader roots and set_limit actions, structural model compared by recursion over the typed tree (limit(), get_ref(), first_ref/last_ref, inner positions)",
         text="Take/Chain/Reader nestings are driven through every operation sequence up to the bound incl. set_limit in mid-stream and io::Read/BufRead calls with every dst size; after each step every adapter's limit and every inner buffer's position must equal the structural model. Exhaustive within the bounds of C09.",
-        note="Read side (Take, Chain, Reader) in this revision; Limit/Writer/chain_mut are covered by the sink engine once registered."),
+        note="Bounds as C09 (read side) and C11 (write side: Limit, Writer, chain_mut)."),
     "C14": dict(engine="table", design_ref="DESIGN.md §3 C14",
         technique="exhaustive enumeration of a complete finite universe (all pairs of byte strings <=3 over 4 symbols x all representations x all comparison impls in both operand orders) on the real code",
         text="Every comparison/hash impl of the crate is executed on every ordered pair of a complete small universe of byte strings in every backing representation and compared with slice semantics; a violation is an operand-order or representation dependence of any impl. Exhaustive within the universe; comparison code does not branch on byte values beyond their order, so 4 symbols incl. 00 and ff plus prefix pairs cover the decision structure.",
